@@ -3,3 +3,5 @@ import NiVerif.Props.C02
 import NiVerif.Props.C03
 import NiVerif.Props.C04
 import NiVerif.Props.C14
+import NiVerif.Props.C08
+import NiVerif.Props.C20
